@@ -80,8 +80,27 @@ def key_send(ctx, facts):
     dest = flow.expr_of(tb, t["args"][1])
     route = flow.expr_of(tb, t["args"][2])
     s = str(dest) + str(route)
-    names = {flow.upvar_name(tb, i) for i in range(8)}
-    ok = "peer" in str(dest) and "gate" in str(route) and "query_id" in str(route) and "Records" in str(route)
+    # positional: what the spawned block captured is resolved in get() itself - the destination is the `peer` field and
+    # the gate the `gate` field of (a clone of) the channel id parameter, the query id is the query_id parameter
+    from rules.C06 import upvar_sources
+    ups = upvar_sources(facts, b, tb.path) if tb is not b else {}
+
+    def src(e):
+        e = ups.get(e[1], e) if e[0] == "upvar" else e
+        while e[0] == "call" and re.search(r"(Clone::clone|Deref::deref|Borrow::borrow)$", e[1]) and e[2]:
+            e = e[2][0]
+        return flow.strip_casts(e)
+
+    def field_of_channel(e, field):
+        e = src(e)
+        if e[0] != "proj" or e[-1] != field:
+            return False
+        base = e[1]
+        while base[0] == "call" and re.search(r"(Clone::clone|Deref::deref|Borrow::borrow)$", base[1]) and base[2]:
+            base = base[2][0]
+        return flow.strip_casts(base)[:2] == ("arg", 2)
+    parts = route[2] if route[0] == "agg" and route[1] == "tuple" and len(route) > 2 else ()
+    ok = field_of_channel(dest, "peer") and len(parts) == 3 and "'Records')" in str(parts[0]) and src(parts[1])[:2] == ("arg", 5) and field_of_channel(parts[2], "gate")
     ctx.ob("KEY-send", "route-from-channel-id", ok, "transport.send(peer, (RouteId::Records, query_id, gate), ..)" if ok else f"route handed to the transport is {s[:200]}", site_of(tb, bb))
     # peer and gate upvars come from one destructuring of channel_id.clone()
     okd = False
